@@ -1,27 +1,78 @@
-"""C09 - every downstream operation targets the mapped database and collection (WriterMap.tla)."""
-from lib import flow
+"""C09 - every downstream operation targets the mapped database and collection.
+
+Two subsystems, one acceptor (C09_Trace.tla):
+  * WriterMap.tla  + driver writermap : core/writer/channel_writer.go - one operation on a fresh writer (all 30 kinds) and
+                                        HISTORIES on one live writer (operation / UpdateNameMappings / operation ...)
+  * TargetMap.tla  + driver targetmap : core/reader/target_client.go - GetCollectionInfo / GetPartitionInfo / GetDatabaseName
+                                        of the real TargetClient against an in-process fake Milvus gRPC server
+The name mapping itself (statement function, function of the code) is NameMap.tla.
+"""
+from lib import flow, vlib
 
 C = dict(
-    prop="C09", driver="writermap", level="model_checking",
-    model_checks=[dict(module="WriterMap", cfg="WriterMap_MC.cfg", workers=4)],
-    plan_sources=[dict(name="map", module="WriterMap", cfg="WriterMap_Plan.cfg", workers=4)],
+    prop="C09", driver="writermap", more_drivers=["targetmap"], level="model_checking",
+    model_checks=[
+        dict(module="WriterMap", cfg="WriterMap_MC.cfg", workers=4),
+        dict(module="WriterMap", cfg="WriterMap_HMC.cfg", workers=4),
+        dict(module="TargetMap", cfg="TargetMap_MC.cfg", workers=4),
+    ],
+    plan_sources=[
+        # one operation on a fresh writer: every (kind, source database, mapping shape, request rejected or not)
+        dict(name="map", module="WriterMap", cfg="WriterMap_Plan.cfg", workers=4),
+        # histories on one live writer
+        dict(name="hist-ouo", module="WriterMap", cfg="WriterMap_HPlanOUO.cfg", workers=4, cap={"quick": 900}),
+        dict(name="hist-uouo", module="WriterMap", cfg="WriterMap_HPlanUOUO.cfg", workers=4, cap={"quick": 500}),
+        dict(name="hist-sim", module="WriterMap", cfg="WriterMap_HPlanSim.cfg", simulate={"quick": 30, "thorough": 400}, depth=9,
+             cap={"quick": 300, "thorough": 8000}),
+        # the target client
+        dict(name="tgt-uc", module="TargetMap", cfg="TargetMap_PlanUC.cfg", workers=4),
+        dict(name="tgt-cuc", module="TargetMap", cfg="TargetMap_PlanCUC.cfg", workers=4, cap={"quick": 600}),
+        dict(name="tgt-sim", module="TargetMap", cfg="TargetMap_PlanSim.cfg", simulate={"quick": 30, "thorough": 400}, depth=8,
+             cap={"quick": 200, "thorough": 6000}),
+    ],
     directed="plans/C09.jsonl",
-    trace=("WriterMap_Trace", "WriterMap_Trace.cfg"),
+    trace=("C09_Trace", "C09_Trace.cfg"),
     death="violation",
+    driver_parallel={"writermap": 2, "targetmap": 4},   # targetmap: one gRPC dial per (run, database)
     nontrivial=lambda t: any(e.get("calls") for e in t["events"]),
-    rule="plans = every (kind, source database, mapping shape, request rejected or not) of WriterMap.tla, all replayed in both tiers; "
-         "with more than one mapping entry the operation is repeated 24 times on fresh writers (Go map iteration order) and every "
-         "distinct outcome is one event; non-trivial = at least one downstream call recorded",
+    rule="plans = (a) every (kind, source database, mapping shape, request rejected or not) of WriterMap.tla on a fresh writer; "
+         "(b) histories on one live writer: every operation - update - operation and mapping - operation - update - operation "
+         "sequence of the small configurations (sampled in the quick tier) and random 7-step histories over all 30 kinds; "
+         "(c) the target client: every mapping x call, call - update - call sequences (sampled in the quick tier), random 6-step "
+         "histories.  When a table holds more than one entry for a source database the operation (24 times) / the history "
+         "(8 times) is repeated on fresh objects (Go map iteration order) and every distinct outcome is recorded; "
+         "non-trivial = at least one downstream call / request recorded",
     assumptions=[
-        "downstream = recording fake api.DataHandler (harness/wfake1), everything exists; a rejection is injected before the request takes effect",
-        "the routing database is param.ReplicateParam.Database (what MilvusDataHandler passes to milvusOp); \"\" and \"default\" are the same database",
+        "writer: downstream = recording fake api.DataHandler (harness/wfake1), everything exists; a rejection is injected before the request takes effect",
+        "writer: the routing database is param.ReplicateParam.Database (what MilvusDataHandler passes to milvusOp); \"\" and \"default\" are the same database",
         "database-level operations on a source database that only has collection-level entries may go to that database or to the target "
         "database of any of its entries (the statement is silent)",
         "data messages: the names are read back from the serialized message handed to ReplicateMessage",
         "alias queries (readiness of names that only exist as mapping targets) stand for 'bookkeeping is keyed by source names'",
+        "histories: the mapping in force is the union of the entries handed to UpdateNameMappings so far (later entries overwrite equal "
+        "keys, nothing is ever removed); every operation of a history is stamped later than the ones before it; no injected failures",
+        "target client: downstream = in-process fake Milvus gRPC server recording every unary request; the routed database is the gRPC "
+        "metadata 'dbname' the SDK client attaches (a proxy fills an empty db_name field from it), the collection is the request's "
+        "collection_name; Connect requests must go to a database the call may use",
+        "target client, source database '_tome' (dropped-object marker): the discovery requests (ListDatabases, ShowCollections) are not "
+        "judged; the database found downstream may be used as it is or mapped (the statement does not say)",
     ],
 )
 
 
+def must_violate(module, cfg, inv, what):
+    """the defect classes the checked code does not have: their model variants must leave the contract (non-vacuity)"""
+    r = vlib.run_tlc(module, cfg, workers=4, timeout=600, tag="c09-neg")
+    if inv not in r.violated:
+        raise vlib.Inconclusive("%s no longer shows the contract violation of %s:\n%s" % (cfg, what, r.out[-2000:]))
+    vlib.log("[c09] %s: %s violated by the model variant '%s', as expected (%d states)" % (cfg, inv, what, r.distinct))
+
+
 def run(tier, replay=None):
-    return flow.standard_flow(C, tier, replay)
+    if not replay:
+        must_violate("WriterMap", "WriterMap_HMemo.cfg", "HContract", "stale memo of the mapping function")
+        must_violate("TargetMap", "TargetMap_Double.cfg", "TgtContract", "mapping applied twice")
+    c = dict(C)
+    # the steps name the subsystem (also for directed plans and replay files)
+    c["driver_of"] = lambda p: "targetmap" if any(s.get("op") in ("tupd", "tcall") for s in p.get("steps", [])) else "writermap"
+    return flow.standard_flow(c, tier, replay)
